@@ -193,6 +193,13 @@ def run(c: sym.Ctx, n_workers: int, depth: int, max_fails: Any, slow_exit: bool 
         if tr.tick > depth:
             raise StopRun()
         workers = manager["pm"].workers
+        for w in list(workers):
+            if w.alive and w.term:
+                # a process that was sent SIGTERM (terminate()) and not waited for exits on its own before the next tick;
+                # this is an exit the manager caused, not an unexpected one
+                w.alive = False
+                w.exitcode = -15
+                rec("exit_after_terminate", w.slot, w.pid)
         for i, w in enumerate(list(workers)):
             if w.alive and c.flag(f"dies{i}"):
                 w.alive = False
